@@ -71,6 +71,7 @@ func checkC07(c *Ctx) {
 	lib := libFiles()
 	all := map[string]data.Value{"x": data.Int(2), "y": data.Int(4), "c": data.Bool(true), "l": data.List{data.Int(3)}, "m": data.Map{"x": data.String("mx")}, "extra": data.Int(1), "n": data.Int(1)}
 
+	dupFirst := false
 	one := func(body []*Cmd, params []Param, variant int, mut string, both int) {
 		if !c.Mine() {
 			return
@@ -87,6 +88,12 @@ func checkC07(c *Ctx) {
 		}}
 		main := &File{Name: "main.soy", NS: "app.main", Aliases: []string{"lib.deep"}, Tmpls: []*Tmpl{warm, t}}
 		files := withLib(main, lib)
+		if dupFirst {
+			// an earlier file already defines app.main.entry (rule-abiding, trivial): lookups resolve to that
+			// first definition, and the rules still hold for every definition in the bundle.
+			first := &File{Name: "first.soy", NS: "app.main", Tmpls: []*Tmpl{{NS: "app.main", Name: "entry", Body: []*Cmd{txt("first definition")}}}}
+			files = append([]*File{first}, files...)
+		}
 		rules := checkRules(files)
 		if rules["ambiguous-param-use"] {
 			c.Count("ambiguous_skipped", 1)
@@ -103,9 +110,9 @@ func checkC07(c *Ctx) {
 		var compileErr string
 		var unbound []string
 		v := vrt.Run(vrt.Options{Fuel: 2000000}, func() {
-			b := soy.NewBundle().AddTemplateString("main.soy", main.src())
-			for _, lf := range lib {
-				b = b.AddTemplateString(lf.Name, lf.src())
+			b := soy.NewBundle()
+			for _, f := range files {
+				b = b.AddTemplateString(f.Name, f.src())
 			}
 			tofu, err := b.CompileToTofu()
 			if err != nil {
@@ -129,7 +136,12 @@ func checkC07(c *Ctx) {
 		if v.Exhausted {
 			obs = "hang"
 		}
-		c.Observe(main.src(), obs)
+		if dupFirst {
+			c.Observe("second definition\x00"+main.src(), obs)
+			cs.Files["first.soy"] = files[0].src()
+		} else {
+			c.Observe(main.src(), obs)
+		}
 		c.Nontrivial()
 		if wantAccept {
 			c.Count("expected_accept", 1)
@@ -209,6 +221,11 @@ func checkC07(c *Ctx) {
 		if !c.Thorough() && seenBodies%7 != 0 {
 			return
 		}
+		// (0b) the same body as a second definition of a template name that an earlier file already defines
+		dupFirst = true
+		one(body, params, variant, "second-definition", 0)
+		one(body, append(append([]Param{}, params...), Param{Name: "extra"}), variant, "second-definition+unused-param", 0)
+		dupFirst = false
 		// (1) unused param
 		one(body, append(append([]Param{}, params...), Param{Name: "extra"}), variant, "add-unused-param", 0)
 		// (2) both soydoc and header params
